@@ -26,7 +26,7 @@ def prop(pid, rules, explanation, minimum=None, assumptions=None):
 
 prop('C01',
      [T.rule_lookup_shape, T.rule_chain, T.rule_total_ber, T.rule_pair_ber, T.rule_fragment_tag_ber, A.rule_a7_unit,
-      A.rule_a8_pairing, W.rule_encode_header, W.rule_decode_header, A.rule_c04_default, E.rule_option_latch, A.rule_a6_spec, Z.rule_encode_tag_arms, Z.rule_bits_prepend, Z.rule_option_scope, A.rule_a6_optdef],
+      A.rule_a8_pairing, W.rule_encode_header, W.rule_decode_header, A.rule_c04_default, E.rule_option_latch, A.rule_a6_spec, Z.rule_encode_tag_arms, Z.rule_bits_prepend, Z.rule_option_scope, A.rule_a6_optdef, Z.rule_encode_contents],
      'Static necessary conditions of the BER round trip: every type class has an encoder by type and a decoder by type; '
      'writer and reader of each type belong to the same codec family; string segments are tagged by the writer as the '
      'reader demands and as X.690 8.23.6 says; chunks are slices of the measured octets; end-of-octets is appended iff '
@@ -46,7 +46,7 @@ prop('C02',
 
 prop('C03',
      [T.rule_x680, T.rule_modes, T.rule_canonical_sort_registered, M.rule_a9_set, M.rule_a9_setof, W.rule_encode_header,
-      A.rule_a8_pairing, A.rule_c13, E.rule_option_latch, Z.rule_encode_tag_arms, Z.rule_real_normalisation, M.rule_a9_dynamic],
+      A.rule_a8_pairing, A.rule_c13, E.rule_option_latch, Z.rule_encode_tag_arms, Z.rule_real_normalisation, M.rule_a9_dynamic, Z.rule_encode_contents],
      'Compared with an independent X.680/X.690 table: universal tag numbers, class/format constants, end-of-octets '
      'octets, canonical encoder modes, TRUE = FF, identifier/length octet thresholds of the encoder, SET members '
      'ordered by the outermost tag, SET OF members sorted as zero-padded octet strings, end-of-octets iff indefinite '
@@ -64,7 +64,7 @@ prop('C04',
 
 prop('C05',
      [G.rule_slots, G.rule_prod, G.rule_retry, G.rule_cons, G.rule_last, G.rule_drop, G.rule_reads_confined,
-      G.rule_iter_total, X.rule_trunc, Z.rule_no_next],
+      G.rule_iter_total, X.rule_trunc, Z.rule_no_next, Z.rule_position_loops],
      'Underrun-generator protocol, logging off: every producer suspends position-neutrally and repeats its read; every '
      'consumer loop forwards underrun objects untouched and runs nothing else on them; the result is the last item and '
      'nothing follows it.  By induction on suspension points the decoder state after any arrival schedule equals that of '
@@ -79,7 +79,7 @@ prop('C06',
      {'A3.hier': 7, 'A3.trunc': 3, 'A2.oneshot': 3, 'A2.retry': 4, 'A2.reads': 5})
 
 prop('C07',
-     [A.rule_c07_len, A.rule_c07_eoo, G.rule_oneshot, G.rule_drop, A.rule_a8_pairing, G.rule_last, G.rule_iter_total, Z.rule_cache_key, Z.rule_cache_reset],
+     [A.rule_c07_len, A.rule_c07_eoo, G.rule_oneshot, G.rule_drop, A.rule_a8_pairing, G.rule_last, G.rule_iter_total, Z.rule_cache_key, Z.rule_cache_reset, Z.rule_position_loops],
      'Exactly one encoding is consumed: consumed-vs-announced length check on every path before an item completes; the '
      'end-of-octets probe un-reads exactly what it read; remainder read from the same stream; no read result dropped; '
      'the encoder appends end-of-octets iff it wrote an indefinite header.  Numeric correctness of lengths is not decided.',
